@@ -145,7 +145,13 @@ func fillPDF(kind int, seed int64, n int) []byte {
 
 // checkPDFRoundTrip returns the reader's result (nil when rejected).
 func checkPDFRoundTrip(t TB, c PDFCase) *ref.PDFResult {
+	noteCase("C04", "pdf417-roundtrip", c)
 	const P, K = "C04", "pdf417-roundtrip"
+	if n := len(c.Content); n >= 5 && n <= 300 {
+		tw := c
+		tw.Content = BStr(crcTwin(c.Content, n))
+		pdfEncode(tw)
+	}
 	bc, err, pv := pdfEncode(c)
 	if pv != nil {
 		failf(t, P, K, c, "%v", pv)
@@ -158,6 +164,7 @@ func checkPDFRoundTrip(t TB, c PDFCase) *ref.PDFResult {
 		}
 		return nil
 	}
+	disturb("pdf417")
 	m, merr := matrix2D(bc)
 	if merr != nil {
 		failf(t, P, K, c, "%v", merr)
@@ -213,6 +220,7 @@ func c04Account(st *Stats, c PDFCase, res *ref.PDFResult) {
 }
 
 func TestC04Rapid(t *testing.T) {
+	foreignWarmup("pdf417")
 	st := NewStats("C04", "rapid")
 	runRapid(t, st, func(rt *rapid.T) {
 		c := PDFCase{Content: BStr(genPDFContent(rt)), Level: rapid.IntRange(0, 8).Draw(rt, "level")}
@@ -227,6 +235,7 @@ func TestC04Rapid(t *testing.T) {
 // TestC04Sweep: codeword counts swept through all row/column shapes: homogeneous contents of
 // every length 0..N for three classes x levels.
 func TestC04Sweep(t *testing.T) {
+	foreignWarmup("pdf417")
 	st := NewStats("C04", "sweep")
 	defer st.Flush()
 	ct := &collectTB{}
